@@ -158,3 +158,77 @@ def gen_upstream(rng, tier):
     out.append([2, 2, fdc, [1, 1, 1, 1], 0, [], []])
     out.append([2, 2, [5, 5, 5, 5, 5, 5, 5, 5, 5], [5, 1, 0, 5], 4, [0, 1, 2, 3], [7] * 36])
     return out
+
+
+# ----------------------------------------------------------------------------- data kernels
+def gen_var2h(rng, tier):
+    out = []
+    n = 150 if tier == 'quick' else 1500
+    for _ in range(n):
+        P = rng.choice([1800, 3600])
+        nv = rng.randint(2, 9)
+        t0 = rng.choice([0, 86400 * 365, -7200, 1000000000]) + rng.randint(0, 3599)
+        gaps = [rng.choice([0, 1, 7, 60, 600, 1800, 3600, 5400, 86400]) for _ in range(nv - 1)]
+        ts = [t0]
+        for g in gaps:
+            ts.append(ts[-1] + g)
+        # some stamps exactly on period boundaries
+        hstart = (t0 // 3600) * 3600 + 3600
+        if rng.random() < 0.4:
+            k = rng.randrange(1, nv)
+            ts[k] = max(ts[k - 1], hstart + rng.randint(0, 4) * P)
+            for j in range(k + 1, nv):
+                ts[j] = max(ts[j], ts[j - 1])
+        vals = [rng.choice([0.0, 1.0, 2.5, 4.0, -1.0, NAN, 0.5, 10.0]) for _ in range(nv)]
+        span = ts[-1] - ts[0]
+        nvalh = max(0, int(span / P)) + rng.choice([0, 0, 1])
+        maxgap = rng.choice([3600, 7200, 5 * 86400])
+        rain = rng.choice([0, 1])
+        out.append([nv, nvalh, P, rain, 0, maxgap, ts, vals, hstart, [7.0] * nvalh])
+    # degenerate shapes (C05)
+    out.append([0, 0, 3600, 0, 0, 3600, [], [], 0, []])
+    out.append([1, 0, 3600, 0, 0, 3600, [10], [1.0], 3600, []])
+    out.append([1, 3, 3600, 0, 0, 3600, [10], [1.0], 3600, [7.0] * 3])
+    out.append([2, 3, 3600, 0, 0, 3600, [10, 20], [1.0, 2.0], 3600, [7.0] * 3])
+    out.append([3, 2, 1800, 0, 0, 3600, [0, 3600, 7201], [2.0, 2.0, 2.0], 3600, [7.0] * 2])
+    out.append([3, 4, 1800, 0, 0, 3600, [1, 3600, 7201], [2.0, 2.0, 2.0], 3600, [7.0] * 4])
+    out.append([2, 2, 3600, 2, 0, 3600, [0, 7200], [1.0, 1.0], 3600, [7.0] * 2])
+    out.append([2, 2, 1234, 0, 0, 3600, [0, 7200], [1.0, 1.0], 3600, [7.0] * 2])
+    return out
+
+
+def gen_aggregate(rng, tier):
+    out = []
+    vals = [0.0, 1.0, -2.0, 3.5, NAN, -0.5, 10.0]
+    # exhaustive: lengths 1..4 over run patterns, a small value lattice, four operators, maxnan 0..2
+    for n in range(1, 5):
+        for pattern in itertools.product([0, 1], repeat=n - 1):          # 1 = index changes
+            idx = [5]
+            for p in pattern:
+                idx.append(idx[-1] + (3 if p else 0))
+            for x in itertools.product([1.0, -2.0, NAN], repeat=n):
+                for op in (0, 1, 2, 3):
+                    for maxnan in (0, 1):
+                        out.append([n, op, maxnan, idx, list(x), [7.0] * n, [7]])
+    for _ in range(300 if tier == 'quick' else 3000):
+        n = rng.randint(1, 12)
+        idx = [rng.randint(-3, 3)]
+        for _ in range(n - 1):
+            idx.append(idx[-1] + rng.choice([0, 0, 1, 5]))
+        if rng.random() < 0.1 and n > 1:
+            k = rng.randrange(1, n); idx[k] = idx[k - 1] - 1            # decreasing index: must be rejected
+        out.append([n, rng.randint(0, 3), rng.choice([0, 1, 2, 20, -1]), idx, [rng.choice(vals) for _ in range(n)], [7.0] * n, [7]])
+    out.append([0, 0, 0, [], [], [], [7]])
+    out.append([-1, 0, 0, [], [], [], [7]])
+    out.append([2, 0, 0, [2 ** 31 - 1, 2 ** 31 - 1], [1.0, 2.0], [7.0] * 2, [7]])
+    out.append([2, 1, 0, [-2 ** 31, 2 ** 31 - 1], [1.0, 2.0], [7.0] * 2, [7]])
+    return out
+
+
+def gen_flathomogen(rng, tier):
+    out = []
+    for c in gen_aggregate(rng, tier):
+        n, op, maxnan, idx, x, o, iend = c
+        if op == 0:
+            out.append([n, maxnan, idx, x, list(o)])
+    return out
